@@ -366,6 +366,12 @@ Proof.
   apply list_set_nat_app_left. lia.
 Qed.
 
+(* a slice / map field whose nil-ness the code tests (row option NilableFields): None = nil;
+   read as a slice / map, nil is empty *)
+Definition onil {A} (o : option (list A)) : list A := match o with Some l => l | None => [] end.
+Lemma onil_some {A} (l : list A) : onil (Some l) = l. Proof. reflexivity. Qed.
+Lemma onil_none {A} : onil (@None (list A)) = []. Proof. reflexivity. Qed.
+
 (* reflect.DeepEqual against a package-level value whose maps and slices are all non-empty (so that the
    nil / empty distinction, which the translation does not keep, cannot matter) *)
 Definition ptr_deep_eqb {A} (e : A -> A -> bool) (a b : ptr A) : bool :=
